@@ -16,6 +16,22 @@ package c14_test
 //	  answered exactly once; a call that fails was never answered;
 //	- no stream arrives on a connection after the client acknowledged the PING
 //	  that followed the connection's final GOAWAY.
+//
+// Refusal sequences (build session 3): a connection may also be of a refusing
+// kind - RST_STREAM(REFUSED_STREAM) for its first k streams then GOAWAY;
+// MAX_CONCURRENT_STREAMS=0 then GOAWAY(0) at the next quiescent point (calls
+// wait for stream quota, nothing is written: NewStream fails before HEADERS);
+// GOAWAY(0) right after the preface (already draining when picked); closed
+// right after the preface - so that ONE call can meet 1..3 refusing
+// connections in a row before a connection serves it. A client-side
+// stats.Handler counts, per call, the attempts begun and the streams created
+// (OutHeader). Added oracle (liveness, reference model of transparent retry):
+// a call may FAIL only if two streams were created for it (first one refused
+// a call may FAIL only if its last attempt created a stream and was not its
+// first attempt (an unprocessed stream is transparently retried on the first
+// attempt only), or if it was pending when a connection was cut without a
+// GOAWAY; a refusal before a stream was created (never sent) is retried any
+// number of times, also after the transparent retry was used up.
 
 import (
 	"context"
@@ -36,6 +52,7 @@ import (
 	"google.golang.org/grpc/internal/verifkit/vk"
 	"google.golang.org/grpc/internal/verifkit/vpipe"
 	"google.golang.org/grpc/metadata"
+	"google.golang.org/grpc/stats"
 	"google.golang.org/grpc/status"
 	"pgregory.net/rapid"
 )
@@ -45,7 +62,20 @@ type CCConn struct {
 	After     int  `json:"after"`     // GOAWAY when the After-th stream arrives; 0 = never (everything is answered at the end)
 	Processed int  `json:"processed"` // streams 1..Processed are answered, last-stream-id = id of the Processed-th (0: id 0)
 	TwoPhase  bool `json:"two_phase"` // GOAWAY(2^31-1)+PING first, the final GOAWAY when the PING is acknowledged
+	// Kind 0: the script above. ccKindRST: when the After-th stream arrives every stream so far gets
+	// RST_STREAM(REFUSED_STREAM), then GOAWAY(id of the After-th). ccKindMCS0: preface advertises
+	// MAX_CONCURRENT_STREAMS=0, GOAWAY(0) at the next quiescent point. ccKindDrained: GOAWAY(0) as soon as the
+	// client's SETTINGS are read. ccKindClosed: connection closed as soon as the client's SETTINGS are read.
+	Kind int `json:"kind,omitempty"`
 }
+
+const (
+	ccKindGoAway = iota
+	ccKindRST
+	ccKindMCS0
+	ccKindDrained
+	ccKindClosed
+)
 
 // CCPlan is a serialisable case.
 type CCPlan struct {
@@ -57,6 +87,9 @@ type CCPlan struct {
 
 func genCCPlan(rt *rapid.T) CCPlan {
 	var p CCPlan
+	if rapid.Bool().Draw(rt, "refusal_sequence") {
+		return genCCSeqPlan(rt)
+	}
 	nc := rapid.IntRange(1, 4).Draw(rt, "nconns")
 	for i := 0; i < nc; i++ {
 		var c CCConn
@@ -74,6 +107,49 @@ func genCCPlan(rt *rapid.T) CCPlan {
 	return p
 }
 
+// genCCSeqPlan: the first 1..3 connections are refusing ones (kinds drawn independently), optionally followed by
+// one scripted connection of the classic kind; later connections answer everything. Few calls, so that one call
+// walks through the whole sequence.
+func genCCSeqPlan(rt *rapid.T) CCPlan {
+	var p CCPlan
+	n := 1 + int(rapid.Uint8Range(0, 7).Draw(rt, "nrefusals_bits"))%3 + 0
+	if n == 1 && rapid.Bool().Draw(rt, "longer") {
+		n = 2
+	}
+	for i := 0; i < n; i++ {
+		var c CCConn
+		// bits, not IntRange: rapid biases ranges to their bounds
+		switch k := int(rapid.Uint8Range(0, 15).Draw(rt, "kind_bits")); {
+		case k < 3:
+			c.Kind = ccKindGoAway
+			c.After = rapid.IntRange(1, 2).Draw(rt, "after")
+			c.Processed = rapid.IntRange(0, c.After-1).Draw(rt, "processed")
+			c.TwoPhase = rapid.Bool().Draw(rt, "two_phase")
+		case k < 6:
+			c.Kind = ccKindRST
+			c.After = rapid.IntRange(1, 2).Draw(rt, "after")
+		case k < 11:
+			c.Kind = ccKindMCS0
+		case k < 14:
+			c.Kind = ccKindDrained
+		default:
+			c.Kind = ccKindClosed
+		}
+		p.Conns = append(p.Conns, c)
+	}
+	if rapid.IntRange(0, 3).Draw(rt, "tail") == 0 {
+		var c CCConn
+		c.After = rapid.IntRange(1, 3).Draw(rt, "after")
+		c.Processed = rapid.IntRange(0, c.After).Draw(rt, "processed")
+		p.Conns = append(p.Conns, c)
+	}
+	nb := rapid.IntRange(1, 3).Draw(rt, "nbatches")
+	for i := 0; i < nb; i++ {
+		p.Batches = append(p.Batches, rapid.IntRange(1, 3).Draw(rt, "batch"))
+	}
+	return p
+}
+
 type ccArrival struct {
 	conn      int
 	id        uint32
@@ -81,7 +157,8 @@ type ccArrival struct {
 	answered  bool
 	wantAns   bool // the script decided to answer; done once the request is complete
 	reqDone   bool // the client's END_STREAM was read
-	excluded  bool // above the connection's final GOAWAY id
+	excluded  bool // above the connection's final GOAWAY id, or refused with RST_STREAM(REFUSED_STREAM)
+	refused   bool // RST_STREAM(REFUSED_STREAM) was sent for it
 	afterAck  bool // arrived after the client acknowledged the PING behind the final GOAWAY
 	betweenGA bool // arrived between the two GOAWAYs of a two-phase drain
 }
@@ -105,7 +182,56 @@ type ccWorld struct {
 	arrivals []*ccArrival
 	byStream map[[2]uint32]*ccArrival
 	bad      string
+
+	rmu       sync.Mutex
+	results   []*ccResult
+	batchEnd  int          // number of calls started by the end of the current batch
+	ambiguous map[int]bool // calls that were pending when a connection was cut without a GOAWAY
+
+	smu      sync.Mutex
+	attempts map[int][]*ccAttempt // per call, in order (client-side stats.Handler)
 }
+
+// ccAttempt is one attempt of a call as reported by the client's stats.Handler.
+type ccAttempt struct {
+	transparent bool // Begin.IsTransparentRetryAttempt
+	created     bool // OutHeader seen: a transport stream was created for the attempt
+}
+
+type ccCallKey struct{}
+
+// ccStats implements stats.Handler.
+type ccStats struct{ w *ccWorld }
+
+func (h ccStats) TagRPC(ctx context.Context, _ *stats.RPCTagInfo) context.Context {
+	call := -1
+	if md, ok := metadata.FromOutgoingContext(ctx); ok {
+		if v := md.Get("x-call"); len(v) == 1 {
+			call, _ = strconv.Atoi(v[0])
+		}
+	}
+	return context.WithValue(ctx, ccCallKey{}, call)
+}
+
+func (h ccStats) HandleRPC(ctx context.Context, s stats.RPCStats) {
+	call, ok := ctx.Value(ccCallKey{}).(int)
+	if !ok {
+		return
+	}
+	h.w.smu.Lock()
+	defer h.w.smu.Unlock()
+	switch e := s.(type) {
+	case *stats.Begin:
+		h.w.attempts[call] = append(h.w.attempts[call], &ccAttempt{transparent: e.IsTransparentRetryAttempt})
+	case *stats.OutHeader:
+		if as := h.w.attempts[call]; len(as) > 0 {
+			as[len(as)-1].created = true
+		}
+	}
+}
+
+func (h ccStats) TagConn(ctx context.Context, _ *stats.ConnTagInfo) context.Context { return ctx }
+func (h ccStats) HandleConn(context.Context, stats.ConnStats)                       {}
 
 var (
 	ccProof1 = [8]byte{0xc1, 0x41}
@@ -134,6 +260,9 @@ func (w *ccWorld) answer(s *ccServer, a *ccArrival) {
 // finalGoAway sends the final GOAWAY and answers the processed prefix. Caller holds w.mu.
 func (w *ccWorld) finalGoAway(s *ccServer) {
 	j := min(s.script.Processed, len(s.order))
+	if s.script.Kind != ccKindGoAway {
+		j = 0
+	}
 	s.finalID = 0
 	if j > 0 {
 		s.finalID = s.order[j-1]
@@ -155,6 +284,20 @@ func (w *ccWorld) onFrame(s *ccServer, f *h2peer.Frame) {
 	w.mu.Lock()
 	defer w.mu.Unlock()
 	switch {
+	case f.Type == http2.FrameSettings && !f.IsAck() && s.phase == 0 && s.script.Kind == ccKindDrained:
+		w.finalGoAway(s) // Processed is 0: GOAWAY(0) before any stream
+	case f.Type == http2.FrameSettings && !f.IsAck() && s.phase == 0 && s.script.Kind == ccKindClosed:
+		// Cut without a GOAWAY: a call that is pending now (or started in the same batch) may have put a stream
+		// on this connection that the server could have processed; its failure is outside C14.
+		s.phase = 3
+		w.rmu.Lock()
+		for i := 0; i < w.batchEnd; i++ {
+			if i >= len(w.results) || !w.results[i].done {
+				w.ambiguous[i] = true
+			}
+		}
+		w.rmu.Unlock()
+		s.peer.Close()
 	case f.Type == http2.FramePing && f.IsAck() && f.PingData == ccProof1 && s.phase == 1:
 		w.finalGoAway(s)
 	case f.Type == http2.FramePing && f.IsAck() && f.PingData == ccProof2:
@@ -184,6 +327,20 @@ func (w *ccWorld) onFrame(s *ccServer, f *h2peer.Frame) {
 			}
 		case s.flushed:
 			w.answer(s, a)
+		case s.script.Kind == ccKindRST:
+			if len(s.order) == s.script.After {
+				for _, id := range s.order {
+					r := w.byStream[[2]uint32{uint32(s.idx), id}]
+					r.excluded, r.refused = true, true
+					s.peer.WriteRSTStream(id, http2.ErrCodeRefusedStream)
+				}
+				s.finalID = f.StreamID
+				s.phase = 2
+				s.peer.WriteGoAway(s.finalID, http2.ErrCodeNo, []byte("c14"))
+				s.peer.WritePing(false, ccProof2)
+			}
+		case s.script.Kind != ccKindGoAway:
+			// MCS0 before its GOAWAY: held, excluded by finalGoAway (a stream here exceeds MAX_CONCURRENT_STREAMS=0)
 		case s.script.After > 0 && len(s.order) == s.script.After && s.phase == 0:
 			if s.script.TwoPhase {
 				s.phase = 1
@@ -194,6 +351,21 @@ func (w *ccWorld) onFrame(s *ccServer, f *h2peer.Frame) {
 			}
 		}
 	}
+}
+
+// kickMCS0 sends GOAWAY(0) on every established MAX_CONCURRENT_STREAMS=0 connection that has not sent one yet;
+// called at quiescent points only, so calls that picked the connection are waiting for stream quota.
+func (w *ccWorld) kickMCS0() bool {
+	w.mu.Lock()
+	defer w.mu.Unlock()
+	any := false
+	for _, s := range w.servers {
+		if s.script.Kind == ccKindMCS0 && s.phase == 0 && s.peer != nil {
+			w.finalGoAway(s)
+			any = true
+		}
+	}
+	return any
 }
 
 // flush answers everything that is still held on connections that will not send a GOAWAY any more.
@@ -228,7 +400,7 @@ type ccOutcome struct {
 func runCC(t *testing.T, p CCPlan) (out ccOutcome) {
 	out.classes = map[string]bool{}
 	msg := vk.Bubble(t, func(t *testing.T) {
-		w := &ccWorld{plan: p, byStream: map[[2]uint32]*ccArrival{}}
+		w := &ccWorld{plan: p, byStream: map[[2]uint32]*ccArrival{}, ambiguous: map[int]bool{}, attempts: map[int][]*ccAttempt{}}
 		dialer := func(ctx context.Context, _ string) (net.Conn, error) {
 			c, sEnd := vpipe.New()
 			w.mu.Lock()
@@ -238,25 +410,33 @@ func runCC(t *testing.T, p CCPlan) (out ccOutcome) {
 			}
 			w.servers = append(w.servers, s)
 			w.mu.Unlock()
-			s.peer = h2peer.New(sEnd, h2peer.Config{Role: h2peer.ServerRole, OnFrame: func(f *h2peer.Frame) { w.onFrame(s, f) }})
+			cfg := h2peer.Config{Role: h2peer.ServerRole, OnFrame: func(f *h2peer.Frame) { w.onFrame(s, f) }}
+			if s.script.Kind == ccKindMCS0 {
+				cfg.Settings = []http2.Setting{{ID: http2.SettingMaxConcurrentStreams, Val: 0}}
+			}
+			s.peer = h2peer.New(sEnd, cfg)
 			return c, nil
 		}
 		cc, err := grpc.NewClient("passthrough:///c14", grpc.WithTransportCredentials(insecure.NewCredentials()), grpc.WithContextDialer(dialer),
-			grpc.WithDefaultCallOptions(grpc.ForceCodecV2(rawCodec{})), grpc.WithDisableRetry())
+			grpc.WithDefaultCallOptions(grpc.ForceCodecV2(rawCodec{})), grpc.WithDisableRetry(), grpc.WithStatsHandler(ccStats{w}))
 		if err != nil {
 			out.harnessErr = "NewClient: " + err.Error()
 			return
 		}
-		var rmu sync.Mutex
+		rmu := &w.rmu
 		var results []*ccResult
 		var wg sync.WaitGroup
 		ctx, cancel := context.WithTimeout(context.Background(), time.Hour)
 		call := 0
 		for _, n := range p.Batches {
+			rmu.Lock()
+			w.batchEnd = call + n
+			rmu.Unlock()
 			for i := 0; i < n; i++ {
 				r := &ccResult{}
 				rmu.Lock()
 				results = append(results, r)
+				w.results = results
 				rmu.Unlock()
 				id := call
 				call++
@@ -273,9 +453,16 @@ func runCC(t *testing.T, p CCPlan) (out ccOutcome) {
 				out.steps++
 			}
 			synctest.Wait()
+			// calls that picked a MAX_CONCURRENT_STREAMS=0 connection now wait for stream quota: drain it
+			for w.kickMCS0() {
+				synctest.Wait()
+			}
 		}
 		// Everything still held is answered now; calls retried onto fresh connections may need several rounds.
 		for round := 0; round < 8; round++ {
+			for w.kickMCS0() {
+				synctest.Wait()
+			}
 			w.flush()
 			synctest.Wait()
 			time.Sleep(time.Second) // lets a reconnect backoff timer (if any) expire
@@ -353,6 +540,7 @@ func runCC(t *testing.T, p CCPlan) (out ccOutcome) {
 			if !r.done {
 				continue
 			}
+			ccJudgeAttempts(w, &out, c, r, as)
 			switch {
 			case r.err == nil && answered != 1:
 				w.badf("call %d returned OK but was answered %d times: %v", c, answered, fmtArr(as))
@@ -376,6 +564,9 @@ func runCC(t *testing.T, p CCPlan) (out ccOutcome) {
 		for i, r := range results {
 			if r.done && r.err == nil && len(byCall[i]) == 0 {
 				w.badf("call %d returned OK but never reached a server", i)
+			}
+			if r.done && len(byCall[i]) == 0 {
+				ccJudgeAttempts(w, &out, i, r, nil) // never on the wire: not visited by the loop above
 			}
 		}
 		rmu.Unlock()
@@ -413,10 +604,84 @@ func runCC(t *testing.T, p CCPlan) (out ccOutcome) {
 	return out
 }
 
+// ccJudgeAttempts applies the transparent-retry reference model to one finished call. Caller holds w.mu and w.rmu.
+//
+// Model (gRFC A6 as stream.go documents it): an attempt for which no transport stream was created (NewStream
+// failed on a draining / closing connection: nothing was sent) is retried, whatever the attempt's number; an
+// attempt whose stream was created and then reported unprocessed (id above the GOAWAY id, REFUSED_STREAM,
+// orphaned before HEADERS were written) is retried only if it is the call's FIRST attempt ("First attempt, stream
+// unprocessed: transparently retry" - grpc-go also spends that privilege on a never-sent refusal, which is
+// stricter than A6; recorded in notes/C14.md, not asserted either way). Hence with retries disabled and no
+// deadline a call fails because of GOAWAYs/refusals only when its LAST attempt created a stream and was not the
+// first attempt. Every stream failure the scripted servers cause is an unprocessed one, except a connection cut
+// without GOAWAY (calls pending then are exempt).
+func ccJudgeAttempts(w *ccWorld, out *ccOutcome, c int, r *ccResult, as []*ccArrival) {
+	w.smu.Lock()
+	atts := append([]*ccAttempt(nil), w.attempts[c]...)
+	w.smu.Unlock()
+	created, neverSent, afterCreated := 0, 0, false
+	desc := ""
+	for _, a := range atts {
+		if a.created {
+			created++
+			desc += "S"
+		} else {
+			neverSent++
+			desc += "n"
+			if created > 0 {
+				afterCreated = true
+			}
+		}
+	}
+	refusals := len(atts)
+	if r.err == nil {
+		refusals--
+	}
+	if created < len(as) {
+		w.badf("call %d: %d streams on the wire but the client reported only %d created streams (attempts %s)", c, len(as), created, desc)
+	}
+	if w.ambiguous[c] {
+		out.classes["call_pending_while_connection_cut"] = true
+	}
+	if r.err != nil && !w.ambiguous[c] {
+		switch {
+		case len(atts) == 0:
+			w.badf("call %d failed with %v before any attempt was begun", c, r.err)
+		case !atts[len(atts)-1].created:
+			w.badf("call %d failed with %v although its last attempt was refused before a stream was created (attempts, S=stream created n=refused before HEADERS: %s): "+
+				"nothing was sent, the refusal is transparently retryable whatever came before; wire: %v", c, r.err, desc, fmtArr(as))
+		case len(atts) == 1:
+			w.badf("call %d failed with %v on its first attempt although every stream failure here is an unprocessed one (above the GOAWAY id / REFUSED_STREAM): "+
+				"it must have been transparently retried; wire: %v", c, r.err, fmtArr(as))
+		}
+	}
+	if neverSent > 0 {
+		out.classes["never_sent_refusal"] = true
+	}
+	if refusals >= 2 {
+		out.classes["call_met_2plus_refusals"] = true
+	}
+	if refusals >= 3 {
+		out.classes["call_met_3plus_refusals"] = true
+	}
+	if neverSent >= 2 {
+		out.classes["call_met_2plus_never_sent_refusals"] = true
+	}
+	if afterCreated {
+		out.classes["never_sent_refusal_after_transparent_retry"] = true
+		out.nt = true
+	}
+	for _, a := range as {
+		if a.refused {
+			out.classes["stream_refused_rst"] = true
+		}
+	}
+}
+
 func fmtArr(as []*ccArrival) string {
 	s := ""
 	for _, a := range as {
-		s += fmt.Sprintf("[conn %d stream %d answered=%v aboveGoAway=%v]", a.conn, a.id, a.answered, a.excluded)
+		s += fmt.Sprintf("[conn %d stream %d answered=%v aboveGoAway/refused=%v]", a.conn, a.id, a.answered, a.excluded)
 	}
 	return s
 }
@@ -428,7 +693,9 @@ func ccRun(t *testing.T, p CCPlan) vk.Result {
 	}
 	var cl []string
 	for _, c := range []string{"goaway_sent", "two_phase_goaway", "goaway_id_zero", "stream_above_goaway_id", "stream_arrived_between_two_phase_goaways",
-		"call_transparently_retried", "retry_also_unprocessed_call_fails", "reconnected_after_goaway", "call_ok", "call_failed_unavailable", "call_failed_with_non_status_error_*errors.errorString"} {
+		"call_transparently_retried", "retry_also_unprocessed_call_fails",
+		"never_sent_refusal", "never_sent_refusal_after_transparent_retry", "call_met_2plus_refusals", "call_met_3plus_refusals", "call_met_2plus_never_sent_refusals",
+		"stream_refused_rst", "call_pending_while_connection_cut", "reconnected_after_goaway", "call_ok", "call_failed_unavailable", "call_failed_with_non_status_error_*errors.errorString"} {
 		if out.classes[c] {
 			cl = append(cl, c)
 		}
